@@ -23,6 +23,8 @@
 (*   adv {now}                       the (virtual) clock was advanced         *)
 (*   obs {entries}                   fifo map at rest: number of per-key      *)
 (*                                   entries                                  *)
+(*   quiet                           lock.Context: every goroutine is blocked *)
+(*                                   or parked (nothing can move by itself)   *)
 (*   stuck {g}                       end of run: g's call never returns       *)
 (*   panic {g, what} / crash {what}  a lock operation panicked / killed the   *)
 (*                                   process                                  *)
@@ -84,8 +86,6 @@ CAcqRet(c, e) ==
        THEN Bad("outer-reader-admitted-while-writer-holds")
   ELSE IF Outer(c) /\ r.mode = "w" /\ \E h \in liveR : ~c.g[h].told
        THEN Bad("outer-writer-granted-before-reader-released-or-cancelled")
-  ELSE IF Outer(c) /\ r.mode = "w" /\ liveR # {} /\ Now(e) < r.ask + c.graceful
-       THEN Bad("outer-writer-granted-before-grace")
   ELSE [c EXCEPT !.g[e.g].st = "held", !.q = Unqueue(c, k, e.g)]
 
 CEnter(c, e) ==
@@ -132,12 +132,19 @@ CObs(c, e) ==
   ELSE IF e.entries < want THEN Bad("fifomap-entry-missing-while-in-use")
   ELSE c
 
+(* lock.Context at a quiescent point: whoever still waits does so with a live context *)
+CQuiet(c, e) ==
+  IF c.prim = "ctxlock" /\ \E h \in Gs(c) : c.g[h].st = "calling" /\ c.g[h].cancelled
+  THEN Bad("waiter-whose-context-ended-keeps-waiting")
+  ELSE c
+
 (* a call that never returns *)
 CStuck(c, e) ==
   LET r == Get(c.g, e.g, NoG)
       holders == {h \in Gs(c) \ {e.g} : c.g[h].st \in {"held", "in", "out", "releasing"} /\ c.g[h].key = r.key}
   IN
-  IF r.st = "releasing" THEN Bad("release-never-returns" \o After(c, r.key))
+  IF c.prim = "outercancel" /\ c.shut THEN c
+  ELSE IF r.st = "releasing" THEN Bad("release-never-returns" \o After(c, r.key))
   ELSE IF r.st # "calling" THEN c
   ELSE IF r.cancelled THEN Bad("waiter-whose-context-ended-keeps-waiting")
   ELSE IF holders # {} THEN c
@@ -159,6 +166,7 @@ CNext(c, e) ==
          [] e.ev = "shutdown"     -> [c EXCEPT !.shut = TRUE]
          [] e.ev = "adv"          -> c
          [] e.ev = "obs"          -> CObs(c, e)
+         [] e.ev = "quiet"        -> CQuiet(c, e)
          [] e.ev = "stuck"        -> CStuck(c, e)
          [] e.ev = "panic"        -> Bad("panic" \o After(c, c.lastk))
          [] e.ev = "crash"        -> Bad("crash" \o After(c, c.lastk))
